@@ -347,7 +347,8 @@ def c17_instances(tier):
     gi = graph_inst
     I = [gi("diamond", GRAPHS["diamond"], mode=3), gi("selfprod3", GRAPHS["selfprod3"], mode=0, dims=(2,)),
          gi("scale_sub", GRAPHS["scale_sub"], mode=3), gi("one_mul", GRAPHS["one_mul"], mode=0, dims=(2,)), gi("mul_add", GRAPHS["mul_add"], mode=0),
-         gi("diamond", GRAPHS["diamond"], dims=(2,), conc=1), gi("shared", GRAPHS["shared"], dims=(2,), conc=2)]
+         gi("diamond", GRAPHS["diamond"], dims=(2,), conc=1), gi("shared", GRAPHS["shared"], dims=(2,), conc=2),
+         gi("mul_add", GRAPHS["mul_add"], mode=3, dims=(1, 1))]
     if tier == "thorough":
         for tag in ("chain", "shared", "user_diamond", "untracked_mid", "clone", "user_chain"):
             I.append(gi(tag, GRAPHS[tag], mode=3))
@@ -386,7 +387,7 @@ for _k in ("C01", "C10", "C11", "C17"):
 
 
 # ------------------------------------------------------------------------------------------ C02 / C07 / C06 / C03
-U = {"neg": 0, "scale": 1, "powf": 2, "ln": 3, "exp": 4, "recip": 5, "relu": 6, "sigmoid": 7}
+U = {"neg": 0, "scale": 1, "powf": 2, "ln": 3, "exp": 4, "recip": 5, "relu": 6, "sigmoid": 7, "exp_big": 8}
 
 
 def fl(x):
@@ -462,7 +463,7 @@ def conv_inst(batch, d, r, c, cnt, fr, fc, sr, sc, mode):
 def c07_instances(tier):
     I = []
     quick_unary = [("neg", 0, [2, 2]), ("scale", 3, [3]), ("powf", 3, [2]), ("powf", 0.5, [2]), ("ln", 0, [2]), ("exp", 0, [1, 2]),
-                   ("recip", 0, [2]), ("relu", 0, [2, 2]), ("sigmoid", 0, [2])]
+                   ("recip", 0, [2]), ("relu", 0, [2, 2]), ("sigmoid", 0, [2]), ("exp_big", 0, [2])]
     for op, p, d in quick_unary:
         I.append(unary_inst(op, p, d, 0))
     I += [sum_inst([2, 3], 1, 0), sum_inst([2, 2, 2], 2, 0), sum_inst([2, 3], 0, 0), sum_inst([2, 2], 2, 0), sum_inst([3, 1, 1], 2, 0),
@@ -675,6 +676,8 @@ def c12_instances(tier):
         I.append(simple_inst("handles_instance", "c12_handles_v%d" % v, str(v), "program with clones / drops / re-binding",
                              "values and gradients bitwise identical to the plain program; pass started from a clone of the result",
                              "program c=a*b; d=c+a; e=d*c on [2] arrays; variant %d; values/seed symbolic" % v, unwind=12, timeout=1500))
+    I.append(simple_inst("nested_instance", "c16_nested__2x2", "2, [2], false", "From<Vec<Array>> from clones of live arrays",
+                         "stacking clones of live arrays gives the same array as stacking the arrays themselves", "2 arrays of dims [2]", unwind=16))
     gi = graph_inst
     I.append(gi("clone", GRAPHS["clone"]))
     if tier == "thorough":
@@ -685,7 +688,7 @@ def c12_instances(tier):
 
 def c18_instances(tier):
     I = []
-    for v in ((4, 1) if tier == "quick" else (0, 1, 2, 3, 4)):
+    for v in ((4, 1, 5) if tier == "quick" else (0, 1, 2, 3, 4, 5)):
         I.append(simple_inst("release_instance", "c18_release_v%d" % v, str(v), "drop glue of Array graphs (REAL Rc::drop, no stub)",
                              "after all results are dropped each leaf is the sole owner of its buffer, no alias / pending value remains; "
                              "gradients are independent arrays; Vec::from(leaf) succeeds",
@@ -729,6 +732,9 @@ def c15_instances(tier):
     for d in ([[2, 2], [2, 1, 2]] + ([[1, 2], [2, 1], [4], [1, 2, 2]] if tier == "thorough" else [])):
         I.append(simple_inst("cost_instance", "c15_cost__%s" % dn(d), "[%s]" % lit(d), "cost::mse / cost::cross_entropy",
                              "mse = (target-output)^2/count; cross-entropy = -target*ln(output)/leading dim", "dims %s" % d, unwind=12))
+    I.append(simple_inst("cost_bt_instance", "c15_cost__2x2__t2", "[2, 2], [2]", "cost::mse / cost::cross_entropy with a broadcast target",
+                         "mse divides by the element count of the OUTPUT; cross-entropy by its leading dimension, also when the target is broadcast",
+                         "output [2,2], target [2]", unwind=12))
     I.append(simple_inst("train_instance", "c15_model__b1_1to1", "1, 1, 1, 1, 0.5, 1", "Model::forward / Model::backward",
                          "forward = composition of the layers; backward returns the sum of the cost array and differentiates down to the parameters",
                          "dense 1->1, batch 1, mse", unwind=12, timeout=1500, mem_gb=30))
@@ -772,7 +778,8 @@ def c08_instances(tier):
 
 def c19_instances(tier):
     I = [ew_inst("add", [2, 2, 3], [2, 3]), ew_inst("div", [2, 2], [2]), mm_inst([2, 2], True, [2, 2], False, [2]),
-         unary_inst("powf", 3, [2], 0), unary_inst("sigmoid", 0, [2], 1), sum_inst([2, 2, 2], 2, 0), sum_inst([18], 1, 0), sum_inst([2, 17], 1, 1),
+         unary_inst("powf", 3, [2], 0), unary_inst("sigmoid", 0, [2], 1), unary_inst("exp_big", 0, [2], 0), unary_inst("exp_big", 0, [2], 1),
+         sum_inst([2, 2, 2], 2, 0), sum_inst([18], 1, 0), sum_inst([2, 17], 1, 1),
          simple_inst("ctor_instance", "c16_ctor__2x3__n6", "[2, 3], 6", "Array::from", "C16 under f32", "dims [2,3]", unwind=18),
          simple_inst("ctor_instance", "c16_ctor__2x2__n3", "[2, 2], 3", "Array::from", "C16 under f32: refusal does not depend on the float width", "dims [2,2], 3 values", unwind=18, expect_panic=True),
          graph_inst("diamond", GRAPHS["diamond"]), simple_inst("track_rule_instance", "c09_rule_matmul_c", "5", "matmul", "C09 under f32", "symbolic flags", timeout=1200)]
@@ -804,7 +811,7 @@ PROPS.update({
                           "Pass level (flags restored, no gradient on untracked operands, nothing through untracked intermediates, gradients untracked): "
                           "the K-graph contract on graph classes with untracked leaves / intermediates. A tracked seed is outside the precondition.",
             "level_note": _GEN_NOTE, "explanation": "Tracking contracts per handle, per operation and per pass (bounded)."},
-    "C12": {"level": "other", "audits": ["audit_handles"], "kani_groups": ["h_graph.rs", "h_tracking.rs", "h_handles.rs"], "instances": c12_instances,
+    "C12": {"level": "other", "audits": ["audit_handles"], "kani_groups": ["h_graph.rs", "h_tracking.rs", "h_handles.rs", "h_construct.rs"], "instances": c12_instances,
             "technique": "Clone contract (loop-free Kani harness) + source audit that nothing observes handle identity + bounded program variants "
                          "with clones / drops / re-binding",
             "level_text": "Clone: every field shared by pointer or copied by value (complete, loop-free). Audit (re-run from /repo's text): the only "
